@@ -1,236 +1,461 @@
-(* C06 - tag templates: expansion never panics for templates accepted by NewTagBuilder, substrings
-   are Python slices, and a template that lists every key with a separator gives injective tags. *)
-From SV Require Import Model.Common Model.Routing Spec.RoutingSpec Proofs.CommonFacts Proofs.MergedKeyProofs Proofs.QueueProofs.
+(* C15: the template language — slices are Python slices, expansion never panics, the
+   tokenizer reads back what a template of well-formed parts renders to. *)
+From SV Require Import Model.Common Model.TfUnescape Model.Template Spec.TransformsSpec Proofs.CommonFacts.
 From Coq Require Import Lia ZifyBool ZifyN ZifyNat.
 Ltac Zify.zify_post_hook ::= Z.div_mod_to_equations.
+Open Scope Z_scope.
+
+(* parameters createVariableExpressionSolver derives from the optional bounds *)
+Definition start_param (a : option Z) : Z := match a with Some x => x | None => 0 end.
+Definition end_param (b : option Z) : Z := match b with Some x => x | None => max_int32 end.
+
+Lemma py_empty : forall (v : bytes) lo hi,
+  0 <= lo -> (hi <= lo \/ Z.of_nat (length v) <= lo) ->
+  firstn (Z.to_nat (hi - lo)) (skipn (Z.to_nat lo) v) = [].
+Proof.
+  intros v lo hi Hlo [H|H].
+  - replace (Z.to_nat (hi - lo)) with O by lia. reflexivity.
+  - rewrite skipn_all2 by lia. apply firstn_nil.
+Qed.
+
+Lemma slice_python_lemma : forall v a b,
+  Z.of_nat (length v) <= max_int32 ->
+  solve_slice v (start_param a) (end_param b) = Ok (py_slice v a b).
+Proof.
+  intros v a b Hlen. unfold solve_slice, py_slice, go_slice. cbv zeta.
+  set (len := Z.of_nat (length v)) in *.
+  assert (Hl0 : 0 <= len) by lia.
+  set (lo := py_index len a 0). set (hi := py_index len b len).
+  set (s1 := if start_param a <? 0 then start_param a + len else start_param a).
+  set (s2 := if s1 <? 0 then 0 else s1).
+  set (e1 := if end_param b <? 0 then end_param b + len else end_param b).
+  assert (Hlo : lo = Z.min s2 len /\ 0 <= s2).
+  { unfold lo, s2, s1, py_index, start_param. destruct a as [x|]; [|cbn; lia].
+    destruct (x <? 0) eqn:E1; [destruct (x + len <? 0) eqn:E2|destruct (x <? 0) eqn:E2]; lia. }
+  assert (Hhi : (e1 < 0 -> hi = 0) /\ (0 <= e1 -> hi = Z.min e1 len)).
+  { unfold hi, e1, py_index, end_param, max_int32 in *. destruct b as [x|].
+    - destruct (x <? 0) eqn:E1; lia.
+    - cbn. lia. }
+  destruct Hlo as [Hlo Hs2]. destruct Hhi as [Hhi1 Hhi2].
+  clearbody lo hi s2 e1. clear s1.
+  destruct (s2 >=? len) eqn:E3.
+  { f_equal. symmetry. apply py_empty; lia. }
+  destruct (e1 <? 0) eqn:E4.
+  { f_equal. symmetry. apply py_empty; lia. }
+  assert (Hhi : hi = Z.min e1 len) by (apply Hhi2; lia).
+  destruct (e1 >? len) eqn:E5.
+  - destruct (s2 <? len) eqn:E6; [|lia].
+    replace ((0 <=? s2) && (s2 <=? len) && (len <=? len))%bool with true by lia.
+    f_equal. f_equal; [f_equal; lia|f_equal; lia].
+  - destruct (s2 <? e1) eqn:E6.
+    + replace ((0 <=? s2) && (s2 <=? e1) && (e1 <=? len))%bool with true by lia.
+      f_equal. f_equal; [f_equal; lia|f_equal; lia].
+    + f_equal. symmetry. apply py_empty; lia.
+Qed.
+
+(* the solver never panics, whatever the parameters *)
+Lemma solve_slice_no_panic : forall v ps pe, exists r, solve_slice v ps pe = Ok r.
+Proof.
+  intros v ps pe. unfold solve_slice, go_slice. cbv zeta.
+  set (len := Z.of_nat (length v)). assert (Hl0 : 0 <= len) by lia.
+  set (s1 := if ps <? 0 then ps + len else ps).
+  set (s2 := if s1 <? 0 then 0 else s1).
+  set (e1 := if pe <? 0 then pe + len else pe).
+  assert (Hs2 : 0 <= s2) by (unfold s2; destruct (s1 <? 0) eqn:E; lia).
+  clearbody s2 e1 len.
+  destruct (s2 >=? len) eqn:E3; [eexists; reflexivity|].
+  destruct (e1 <? 0) eqn:E4; [eexists; reflexivity|].
+  destruct (e1 >? len) eqn:E5.
+  - destruct (s2 <? len) eqn:E6; [|eexists; reflexivity].
+    replace ((0 <=? s2) && (s2 <=? len) && (len <=? len))%bool with true by lia. eexists; reflexivity.
+  - destruct (s2 <? e1) eqn:E6; [|eexists; reflexivity].
+    replace ((0 <=? s2) && (s2 <=? e1) && (e1 <=? len))%bool with true by lia. eexists; reflexivity.
+Qed.
+
+(* ---------- the tokenizer reads back the documented syntax ---------- *)
 Open Scope N_scope.
 
-(* ---------- go_substr ---------- *)
+Lemma is_word_iff : forall c, is_word c = true <-> word_char c.
+Proof. intros c. unfold is_word, word_char. lia. Qed.
 
-Lemma slice_ok : forall (v : bytes) a b, (a <= b)%nat -> (b <= length v)%nat -> slice v a b = Some (firstn (b - a) (skipn a v)).
+Lemma is_digit_iff : forall c, is_digit c = true <-> digit_byte c.
+Proof. intros c. unfold is_digit, digit_byte. lia. Qed.
+
+Definition stops (p : N -> bool) (rest : bytes) : Prop :=
+  match rest with [] => True | c :: _ => p c = false end.
+
+Lemma span_app_stop : forall p a rest, Forall (fun c => p c = true) a -> stops p rest ->
+  span p (a ++ rest) = (a, rest).
 Proof.
-  intros v a b H1 H2. unfold slice.
-  replace (Nat.leb a b && Nat.leb b (length v))%bool with true; [reflexivity|].
-  symmetry. apply andb_true_iff. split; apply Nat.leb_le; assumption.
+  intros p a rest Ha Hs. induction Ha as [|c a Hc Ha IH]; cbn [app].
+  - destruct rest as [|c r]; [reflexivity|]. cbn in *. rewrite Hs. reflexivity.
+  - cbn [span]. rewrite Hc, IH. reflexivity.
 Qed.
 
-Lemma go_substr_never_panics : forall v s e, is_panic (go_substr v s e) = false.
+Lemma index_byte_app_first : forall a c r, Forall (fun b => b <> c) a ->
+  index_byte (a ++ c :: r) c = Some (length a).
 Proof.
-  intros v s e. unfold go_substr.
-  repeat match goal with
-  | |- context [if ?c then _ else _] => destruct c eqn:?
-  | |- context [match slice ?v ?a ?b with _ => _ end] => rewrite (slice_ok v a b) by lia
-  end; try reflexivity.
+  intros a c r Ha. induction Ha as [|b a Hb Ha IH]; cbn [app index_byte length].
+  - rewrite N.eqb_refl. reflexivity.
+  - destruct (b =? c) eqn:E; [lia|]. rewrite IH. reflexivity.
 Qed.
 
-Lemma firstn_clip : forall (A : Type) n (l : list A), firstn n l = firstn (Nat.min n (length l)) l.
+Definition raw_of (i : item) : rawpart :=
+  match i with
+  | ILit s => RLit s
+  | IVar n => RVar n
+  | IBrace n None => RBraced n
+  | IBrace n (Some (a, b)) => RBraced (n ++ 91 :: a ++ 58 :: b ++ [93])
+  end.
+
+Definition brace_inner (n : bytes) (sl : option (bytes * bytes)) : bytes :=
+  match sl with None => n | Some (a, b) => n ++ 91 :: a ++ 58 :: b ++ [93] end.
+
+Lemma render_brace : forall n sl, render_item (IBrace n sl) = 36 :: 123 :: brace_inner n sl ++ [125].
 Proof.
-  intros A n l. destruct (Nat.le_gt_cases n (length l)) as [H|H].
-  - rewrite Nat.min_l by exact H. reflexivity.
-  - rewrite Nat.min_r by lia. rewrite !firstn_all2 by lia. reflexivity.
+  intros n [[a b]|]; cbn [render_item brace_inner]; [|reflexivity].
+  do 2 f_equal. rewrite <- !app_assoc. cbn [app]. do 2 f_equal. rewrite <- !app_assoc. cbn [app]. do 2 f_equal. rewrite <- !app_assoc. reflexivity.
 Qed.
 
-Lemma sub_nil : forall (v : bytes) a n, (n = 0 \/ length v <= a)%nat -> firstn n (skipn a v) = [].
+Lemma bound_text_chars : forall t, bound_text t -> Forall (fun c => digit_byte c \/ c = 45) t.
 Proof.
-  intros v a n [->|H]; [reflexivity|]. rewrite skipn_all2 by exact H. apply firstn_nil.
+  intros t H. destruct H as [|d ds H|d ds H]; [constructor| |constructor; [right; reflexivity|]];
+    (eapply Forall_impl; [|exact H]); intros; left; assumption.
 Qed.
 
-Lemma sub_eq : forall (v : bytes) a a' n n', a = a' ->
-  (Nat.min n (length v - a) = Nat.min n' (length v - a))%nat -> firstn n (skipn a v) = firstn n' (skipn a' v).
+(* the text between "${" and "}" contains neither '$' nor '}' and starts with a word character *)
+Lemma brace_inner_chars : forall n sl, item_ok (IBrace n sl) ->
+  Forall (fun c => c <> 36 /\ c <> 125) (brace_inner n sl) /\
+  exists d r, brace_inner n sl = d :: r /\ word_char d.
 Proof.
-  intros v a a' n n' <- H. rewrite (firstn_clip _ n), (firstn_clip _ n'), skipn_length, H. reflexivity.
+  intros n sl H.
+  assert (Hn : name_ok n) by (destruct sl as [[a b]|]; cbn in H; tauto).
+  destruct Hn as [Hne Hw].
+  assert (Hnw : Forall (fun c => c <> 36 /\ c <> 125) n).
+  { eapply Forall_impl; [|exact Hw]. intros c Hc. unfold word_char in Hc. lia. }
+  split.
+  - destruct sl as [[a b]|]; cbn [brace_inner]; [|assumption].
+    cbn in H. destruct H as (_ & Ha & Hb).
+    assert (Hb' : forall t, bound_text t -> Forall (fun c => c <> 36 /\ c <> 125) t).
+    { intros t Ht. eapply Forall_impl; [|apply bound_text_chars; exact Ht].
+      intros c [Hc|Hc]; unfold digit_byte in *; lia. }
+    apply Forall_app; split; [assumption|]. constructor; [lia|].
+    apply Forall_app; split; [apply Hb'; assumption|]. constructor; [lia|].
+    apply Forall_app; split; [apply Hb'; assumption|]. constructor; [lia|constructor].
+  - destruct n as [|d r]; [congruence|]. inversion Hw; subst.
+    destruct sl as [[a b]|]; cbn [brace_inner app]; eexists; eexists; split; try reflexivity; assumption.
 Qed.
 
-Ltac destruct_inner_if :=
-  match goal with
-  | |- context [if ?c then _ else _] =>
-    lazymatch c with
-    | context [if _ then _ else _] => fail
-    | _ => destruct c eqn:?
+Definition head_is_dollar_or_empty (s : bytes) : Prop := match s with [] => True | c :: _ => c = 36 end.
+
+Lemma render_head : forall i l, items_ok (i :: l) ->
+  match i with
+  | ILit _ => True
+  | _ => exists r, render_items (i :: l) = 36 :: r
+  end.
+Proof.
+  intros i l H. destruct i as [s|n|n sl]; [exact I| |].
+  - eexists. reflexivity.
+  - unfold render_items. cbn [flat_map]. rewrite render_brace. eexists. reflexivity.
+Qed.
+
+Lemma tokenize_render : forall l fuel, items_ok l -> (length (render_items l) < fuel)%nat ->
+  tokenize fuel (render_items l) = Some (map raw_of l, false).
+Proof.
+  induction l as [|i l IH]; intros fuel Hok Hf.
+  - destruct fuel; [lia|]. reflexivity.
+  - destruct fuel as [|f]; [lia|].
+    destruct Hok as (Hi & Hfol & Hl).
+    unfold render_items in *. cbn [flat_map map] in *. fold (render_items l) in *.
+    set (R := render_items l) in *.
+    assert (HR : forall f', (length R < f')%nat -> tokenize f' R = Some (map raw_of l, false)) by (intros; apply IH; assumption).
+    destruct i as [s|n|n sl].
+    + (* literal *)
+      destruct Hi as [Hne Hnd]. destruct s as [|c0 s']; [congruence|].
+      cbn [render_item app] in *. cbn [tokenize].
+      inversion Hnd as [|? ? Hc0 Hs']; subst.
+      destruct (c0 =? 36) eqn:E0; [lia|].
+      change (c0 :: s' ++ R) with ((c0 :: s') ++ R).
+      rewrite span_app_stop.
+      * rewrite HR by (cbn [length] in Hf; rewrite app_length in Hf; lia). reflexivity.
+      * eapply Forall_impl; [|exact Hnd]. intros c Hc. cbv beta in Hc. unfold not_dollar. destruct (c =? 36) eqn:Ec; [lia|reflexivity].
+      * destruct l as [|j l']; [exact I|].
+        destruct j as [t|m|m sl']; try (cbn in Hfol; tauto).
+        -- unfold R, render_items. cbn [flat_map render_item app stops]. reflexivity.
+        -- unfold R, render_items. cbn [flat_map]. rewrite render_brace. cbn [app stops]. reflexivity.
+    + (* $name *)
+      destruct Hi as [Hne Hw]. destruct n as [|c n']; [congruence|].
+      cbn [render_item app] in *. cbn [tokenize].
+      rewrite N.eqb_refl.
+      inversion Hw as [|? ? Hc Hn']; subst.
+      assert (Ec : is_word c = true) by (apply is_word_iff; assumption). rewrite Ec.
+      change (c :: n' ++ R) with ((c :: n') ++ R).
+      rewrite span_app_stop.
+      * rewrite HR by (cbn [length] in Hf; rewrite app_length in Hf; cbn [length] in Hf; lia). reflexivity.
+      * eapply Forall_impl; [|exact Hw]. intros x Hx. apply is_word_iff. assumption.
+      * destruct l as [|j l']; [exact I|].
+        destruct j as [t|m|m sl'].
+        -- destruct Hl as ((Htne & _) & _). destruct t as [|c' t']; [congruence|].
+           cbn in Hfol. unfold R, render_items. cbn [flat_map render_item app stops].
+           destruct (is_word c') eqn:E; [|reflexivity]. exfalso. apply Hfol. apply is_word_iff. assumption.
+        -- unfold R, render_items. cbn [flat_map render_item app stops]. reflexivity.
+        -- unfold R, render_items. cbn [flat_map]. rewrite render_brace. cbn [app stops]. reflexivity.
+    + (* ${...} *)
+      destruct (brace_inner_chars n sl Hi) as (Hch & d & r & Hd & Hwd).
+      rewrite render_brace in *. cbn [app] in *. rewrite <- app_assoc in *. cbn [app] in *.
+      cbn [tokenize]. rewrite N.eqb_refl.
+      change (is_word 123) with false. cbn [N.eqb Pos.eqb]. cbv iota.
+      assert (HfR : (length R < f)%nat) by (cbn [length] in Hf; rewrite app_length in Hf; cbn [length] in Hf; lia).
+      remember (brace_inner n sl ++ 125 :: R) as X eqn:HX.
+      assert (HX' : X = d :: (r ++ 125 :: R)) by (rewrite HX, Hd; reflexivity).
+      destruct X as [|d0 X0]; [discriminate|]. inversion HX'; subst d0.
+      assert (Ed : is_word d = true) by (apply is_word_iff; assumption). rewrite Ed.
+      change (d :: r ++ 125 :: R) with ((d :: r) ++ 125 :: R). rewrite <- Hd.
+      rewrite index_byte_app_first by (eapply Forall_impl; [|exact Hch]; cbv beta; intros; tauto).
+      rewrite firstn_app, Nat.sub_diag, firstn_all, firstn_O, app_nil_r.
+      replace (skipn (S (length (brace_inner n sl))) (brace_inner n sl ++ 125 :: R)) with R.
+      * rewrite HR by exact HfR.
+        destruct sl as [[a b]|]; reflexivity.
+      * rewrite skipn_app, skipn_all2 by lia.
+        replace (S (length (brace_inner n sl)) - length (brace_inner n sl))%nat with 1%nat by lia. reflexivity.
+Qed.
+
+Definition has_dd := has_double_dollar.
+
+Lemma has_dd_cons : forall c s, c <> 36 -> has_double_dollar (c :: s) = has_double_dollar s.
+Proof.
+  intros c s H. unfold has_double_dollar at 1.
+  destruct c as [|p]; [reflexivity|].
+  do 6 (destruct p as [p|p|]; try reflexivity). all: try (exfalso; apply H; reflexivity).
+Qed.
+
+Lemma has_dd_dollar : forall c s, c <> 36 -> has_double_dollar (36 :: c :: s) = has_double_dollar (c :: s).
+Proof.
+  intros c s H. unfold has_double_dollar at 1. cbn.
+  destruct c as [|p]; [reflexivity|].
+  do 6 (destruct p as [p|p|]; try reflexivity). all: try (exfalso; apply H; reflexivity).
+Qed.
+
+Lemma has_dd_app : forall a s, Forall (fun c => c <> 36) a -> has_double_dollar (a ++ s) = has_double_dollar s.
+Proof.
+  intros a s H. induction H as [|c a Hc Ha IH]; [reflexivity|].
+  cbn [app]. rewrite has_dd_cons by assumption. exact IH.
+Qed.
+
+Lemma no_double_dollar : forall l, items_ok l -> has_double_dollar (render_items l) = false.
+Proof.
+  induction l as [|i l IH]; intros Hok; [reflexivity|].
+  destruct Hok as (Hi & Hfol & Hl). unfold render_items. cbn [flat_map]. fold (render_items l).
+  specialize (IH Hl). destruct i as [s|n|n sl].
+  - destruct Hi as [_ Hnd]. cbn [render_item]. rewrite has_dd_app by assumption. exact IH.
+  - destruct Hi as [Hne Hw]. destruct n as [|c n']; [congruence|]. cbn [render_item app].
+    assert (Hnw : Forall (fun c => c <> 36) (c :: n')).
+    { eapply Forall_impl; [|exact Hw]. intros x Hx. unfold word_char in Hx. lia. }
+    inversion Hnw; subst.
+    rewrite has_dd_dollar by assumption.
+    change (c :: n' ++ render_items l) with ((c :: n') ++ render_items l).
+    rewrite has_dd_app by assumption. exact IH.
+  - destruct (brace_inner_chars n sl Hi) as (Hch & _).
+    rewrite render_brace. cbn [app]. rewrite has_dd_dollar by lia. rewrite has_dd_cons by lia.
+    rewrite <- app_assoc. rewrite has_dd_app by (eapply Forall_impl; [|exact Hch]; cbv beta; intros; tauto).
+    cbn [app]. rewrite has_dd_cons by lia. exact IH.
+Qed.
+
+(* the bounds as the regexp groups deliver them *)
+Definition not_minus_head (s : bytes) : Prop := match s with 45 :: _ => False | _ => True end.
+
+Lemma parse_optint_other : forall s, not_minus_head s ->
+  parse_optint s = (let (d, r) := span is_digit s in match d with [] => (None, s) | _ => (Some d, r) end).
+Proof.
+  intros s H. destruct s as [|c t]; [reflexivity|]. destruct c as [|p]; [reflexivity|].
+  do 6 (destruct p as [p|p|]; try reflexivity). cbn in H. contradiction.
+Qed.
+
+Lemma not_minus_head_intro : forall c t, c <> 45 -> not_minus_head (c :: t).
+Proof.
+  intros c t H. destruct c as [|p]; [exact I|].
+  do 6 (destruct p as [p|p|]; try exact I). exfalso. apply H. reflexivity.
+Qed.
+
+Lemma parse_optint_bound : forall t rest, bound_text t -> stops is_digit rest -> stops (fun c => c =? 45) rest ->
+  parse_optint (t ++ rest) = (match t with [] => None | _ => Some t end, rest).
+Proof.
+  intros t rest Ht Hs Hm. destruct Ht as [|d ds Hd|d ds Hd].
+  - cbn [app]. rewrite parse_optint_other.
+    + destruct rest as [|c r]; [reflexivity|]. cbn in Hs. cbn [span]. rewrite Hs. reflexivity.
+    + destruct rest as [|c r]; [exact I|]. cbn in Hm. apply not_minus_head_intro. lia.
+  - assert (Hall : Forall (fun c => is_digit c = true) (d :: ds)).
+    { eapply Forall_impl; [|exact Hd]. intros c Hc. apply is_digit_iff. assumption. }
+    inversion Hd as [|? ? Hd0 _]; subst. unfold digit_byte in Hd0.
+    rewrite parse_optint_other by (apply not_minus_head_intro; lia).
+    rewrite span_app_stop by assumption. reflexivity.
+  - assert (Hall : Forall (fun c => is_digit c = true) (d :: ds)).
+    { eapply Forall_impl; [|exact Hd]. intros c Hc. apply is_digit_iff. assumption. }
+    cbn [app]. unfold parse_optint.
+    change (d :: ds ++ rest) with ((d :: ds) ++ rest). rewrite span_app_stop by assumption. reflexivity.
+Qed.
+
+Lemma parse_varexpr_inner : forall n sl, item_ok (IBrace n sl) ->
+  parse_varexpr (brace_inner n sl) =
+  Some (n, match sl with Some (a, _) => a | None => [] end, match sl with Some (_, b) => b | None => [] end).
+Proof.
+  intros n sl H.
+  assert (Hn : name_ok n) by (destruct sl as [[a b]|]; cbn in H; tauto).
+  destruct Hn as [Hne Hw].
+  assert (Hww : Forall (fun c => is_word c = true) n).
+  { eapply Forall_impl; [|exact Hw]. intros c Hc. apply is_word_iff. assumption. }
+  unfold parse_varexpr. destruct sl as [[a b]|]; cbn [brace_inner].
+  - cbn in H. destruct H as (_ & Ha & Hb).
+    rewrite span_app_stop; [|assumption|reflexivity].
+    destruct n as [|c n']; [congruence|].
+    rewrite (parse_optint_bound a (58 :: b ++ [93]) Ha); [|reflexivity|reflexivity].
+    rewrite (parse_optint_bound b [93] Hb); [|reflexivity|reflexivity].
+    destruct a, b; reflexivity.
+  - rewrite <- (app_nil_r n) at 1. rewrite span_app_stop; [|assumption|exact I].
+    destruct n; [congruence|reflexivity].
+Qed.
+
+(* what each item compiles to *)
+Definition bound_val (t : bytes) (dflt : Z) : option Z := match t with [] => Some dflt | _ => atoi t end.
+
+Definition item_part (schema : list bytes) (i : item) : option part :=
+  match i with
+  | ILit s => Some (PLit s)
+  | IVar n => option_map PVar (find_index schema n)
+  | IBrace n sl =>
+    match find_index schema n with
+    | None => None
+    | Some loc =>
+      match bound_val (match sl with Some (a, _) => a | None => [] end) 0%Z,
+            bound_val (match sl with Some (_, b) => b | None => [] end) max_int32 with
+      | Some x, Some y => Some (PSlice loc x y)
+      | _, _ => None
+      end
     end
   end.
 
-(* the closure computes the Python slice (strings shorter than 2^31, the default end being math.MaxInt32) *)
-Lemma go_substr_is_slice : forall v s e, (Z.of_nat (length v) <= 2147483647)%Z ->
-  go_substr v s e = Ok (ref_slice v s e).
+Lemma compile_item : forall schema i p, item_ok i -> item_part schema i = Some p ->
+  compile_part schema (raw_of i) = Ok p.
 Proof.
-  intros v s e Hlen. unfold go_substr, ref_slice, clamp.
-  destruct s as [s|]; destruct e as [e|]; cbv zeta;
-  repeat destruct_inner_if;
-  try (rewrite slice_ok by lia);
-  f_equal;
-  first [ symmetry; apply sub_nil; lia | apply sub_eq; lia ].
+  intros schema i p Hok H. destruct i as [s|n|n sl].
+  - inversion H; reflexivity.
+  - cbn in *. destruct (find_index schema n); inversion H; reflexivity.
+  - assert (Hraw : raw_of (IBrace n sl) = RBraced (brace_inner n sl)) by (destruct sl as [[a b]|]; reflexivity).
+    rewrite Hraw. cbn [compile_part]. rewrite (parse_varexpr_inner n sl Hok).
+    cbn [item_part] in H. destruct (find_index schema n) as [loc|]; [|discriminate].
+    unfold bound_val in H.
+    destruct sl as [[a b]|].
+    + destruct (match a with [] => Some 0%Z | _ :: _ => atoi a end) as [x|]; [|discriminate].
+      destruct (match b with [] => Some max_int32 | _ :: _ => atoi b end) as [y|]; [|discriminate].
+      inversion H; reflexivity.
+    + inversion H; reflexivity.
 Qed.
 
-(* ---------- templates accepted by NewTagBuilder only refer to existing keys ---------- *)
-
-Definition part_wf (n : nat) (p : tpart) : Prop :=
-  match p with TLit _ => True | TVar i => (i < n)%nat | TSub i _ _ => (i < n)%nat end.
-
-Lemma index_of_lt : forall name names i, index_of name names = Some i -> (i < length names)%nat.
+Lemma compile_items : forall schema l ps, items_ok l -> all_some (map (item_part schema) l) = Some ps ->
+  compile_parts schema (map raw_of l) = Ok ps.
 Proof.
-  induction names as [|x names IH]; intros i H; cbn [index_of] in H; [discriminate|].
-  destruct (bytes_eqb name x).
-  - inversion H. cbn. lia.
-  - destruct (index_of name names) as [j|]; cbn in H; [|discriminate]. inversion H. specialize (IH j eq_refl). cbn. lia.
+  induction l as [|i l IH]; intros ps Hok H.
+  - inversion H; reflexivity.
+  - destruct Hok as (Hi & _ & Hl). cbn [map all_some] in H.
+    destruct (item_part schema i) as [p|] eqn:Ep; [|discriminate].
+    destruct (all_some (map (item_part schema) l)) as [ps'|] eqn:El; [|discriminate].
+    inversion H; subst. cbn [map compile_parts].
+    rewrite (compile_item schema i p Hi Ep). rewrite (IH ps' Hl eq_refl). reflexivity.
 Qed.
 
-Lemma resolve_parts_wf : forall names ps parts, resolve_parts names ps = Some parts -> Forall (part_wf (length names)) parts.
+(* NewExpander on the rendering of well-formed items gives their parts *)
+Lemma new_expander_render : forall schema l ps, items_ok l ->
+  all_some (map (item_part schema) l) = Some ps ->
+  new_expander schema (render_items l) = Ok ps.
 Proof.
-  induction ps as [|p ps IH]; intros parts H; cbn [resolve_parts] in H.
-  - inversion H. constructor.
-  - destruct p as [s|name|vexpr].
-    + destruct (resolve_parts names ps) as [xs|]; [|discriminate]. inversion H. constructor; [exact I|apply IH; reflexivity].
-    + destruct (index_of name names) as [i|] eqn:Hi; cbn in H; [|discriminate].
-      destruct (resolve_parts names ps) as [xs|]; [|discriminate]. inversion H.
-      constructor; [exact (index_of_lt _ _ _ Hi)|apply IH; reflexivity].
-    + destruct (parse_vexpr vexpr) as [[[name s] e]|]; [|discriminate].
-      destruct (index_of name names) as [i|] eqn:Hi; cbn in H; [|discriminate].
-      destruct (resolve_parts names ps) as [xs|]; [|discriminate]. inversion H.
-      constructor; [exact (index_of_lt _ _ _ Hi)|apply IH; reflexivity].
+  intros schema l ps Hok H. unfold new_expander.
+  rewrite no_double_dollar by assumption.
+  rewrite tokenize_render by (assumption || lia).
+  rewrite (compile_items schema l ps Hok H). reflexivity.
 Qed.
 
-Lemma parse_template_wf : forall names t parts, parse_template names t = Some parts -> Forall (part_wf (length names)) parts.
+(* ---------- the value of a template ---------- *)
+Open Scope Z_scope.
+
+Lemma expand_eq_all : forall fields ps, expand fields ps = expand_all fields ps.
 Proof.
-  intros names t parts H. unfold parse_template in H.
-  destruct (has_dollar_dollar t); [discriminate|].
-  destruct (scan_parts (S (length t)) t) as [ps sk].
-  destruct (resolve_parts names ps) as [parts'|] eqn:Hr; [|discriminate].
-  destruct sk; [discriminate|]. inversion H; subst. eapply resolve_parts_wf. exact Hr.
+  intros fields ps. destruct ps as [|p [|q ps]]; try reflexivity.
+  cbn [expand expand_all]. destruct (part_value fields p); try reflexivity. rewrite app_nil_r. reflexivity.
 Qed.
 
-Lemma expand_part_ok : forall n keys p, part_wf n p -> length keys = n -> exists x, expand_part keys p = Ok x.
+Lemma part_value_no_panic : forall fields p, exists v, part_value fields p = Ok v.
 Proof.
-  intros n keys p Hp Hl. destruct p as [s|i|i s e]; cbn [expand_part part_wf] in *.
-  - eauto.
-  - unfold key_at. destruct (nth_error keys i) eqn:E; [eauto|]. apply nth_error_None in E. lia.
-  - unfold key_at. destruct (nth_error keys i) as [k|] eqn:E; [|apply nth_error_None in E; lia].
-    cbn [obind]. pose proof (go_substr_never_panics k s e) as Hnp.
-    destruct (go_substr k s e) as [x|err|site] eqn:G; [eauto| |discriminate].
-    exfalso. clear Hnp. unfold go_substr in G.
-    repeat match type of G with
-    | context [if ?c then _ else _] => destruct c
-    | context [match slice ?v ?a ?b with _ => _ end] => destruct (slice v a b)
-    end; discriminate.
+  intros fields p. destruct p as [s|loc|loc a b]; cbn [part_value]; try (eexists; reflexivity).
+  apply solve_slice_no_panic.
 Qed.
 
-Lemma expand_parts_ok : forall n keys ps buf, Forall (part_wf n) ps -> length keys = n -> exists x, expand_parts keys ps buf = Ok x.
+Lemma expand_all_no_panic : forall fields ps, exists v, expand_all fields ps = Ok v.
 Proof.
-  induction ps as [|p ps IH]; intros buf Hall Hl; cbn [expand_parts]; [eauto|].
-  inversion Hall as [|? ? Hp Hps]; subst. destruct (expand_part_ok _ _ _ Hp eq_refl) as [x Hx]. rewrite Hx. cbn [obind]. apply IH; auto.
+  intros fields ps. induction ps as [|p ps [v IH]]; [eexists; reflexivity|].
+  cbn [expand_all]. destruct (part_value_no_panic fields p) as [x Hx]. rewrite Hx, IH. eexists; reflexivity.
 Qed.
 
-Lemma build_tag_ok : forall n keys parts, Forall (part_wf n) parts -> length keys = n -> exists tag, build_tag parts keys = Ok tag.
-Proof.
-  intros n keys parts Hall Hl. unfold build_tag. destruct parts as [|p [|q r]].
-  - cbn. eauto.
-  - inversion Hall as [|? ? Hp Hps]; subst. eapply expand_part_ok; eauto.
-  - eapply expand_parts_ok; eauto.
-Qed.
+Lemma expand_no_panic : forall fields ps, exists v, expand fields ps = Ok v.
+Proof. intros. rewrite expand_eq_all. apply expand_all_no_panic. Qed.
 
-(* ---------- the orchestrator never panics on tuples of the configured arity ---------- *)
+(* the documented value of an item: the field, or its Python slice *)
+Definition bound_opt (t : bytes) : option (option Z) :=
+  match t with [] => Some None | _ => option_map Some (atoi t) end.
 
-Lemma local_goc_total : forall n parts g lm ks, Forall (part_wf n) parts -> length ks = n ->
-  exists r, local_get_or_create parts g lm ks = Ok r.
-Proof.
-  intros n parts g lm ks Hwf Hl. unfold local_get_or_create. destruct (lookup (merged_key ks) lm); [eauto|].
-  unfold global_get_or_create. destruct (lookup (merged_key ks) (g_map g)); [cbn; eauto|].
-  unfold new_pipeline. destruct (build_tag_ok _ _ _ Hwf Hl) as [tag Ht]. rewrite Ht. cbn. eauto.
-Qed.
-
-Lemma run_ops_total : forall n parts ops g lms, Forall (part_wf n) parts -> Forall (fun o => length (snd o) = n) ops ->
-  exists r, run_ops parts g lms ops = Ok r.
-Proof.
-  induction ops as [|[si ks] ops IH]; intros g lms Hwf Hall; cbn [run_ops]; [eauto|].
-  inversion Hall as [|? ? Hk Hrest]; subst. cbn [snd] in *. unfold step.
-  destruct (local_goc_total _ _ g (nth si lms []) ks Hwf eq_refl) as [[[g1 lm1] i1] H1]. rewrite H1. cbn [obind].
-  destruct (IH g1 (set_nth lms si lm1) Hwf Hrest) as [[[g2 lms2] is2] H2']. rewrite H2'. cbn. eauto.
-Qed.
-
-Lemma recover_keys_length : forall n id ks, recover_keys n id = Some ks -> length ks = n.
-Proof.
-  intros n id ks H. unfold recover_keys in H.
-  destruct (Nat.eqb (length (split_on comma id)) n) eqn:E; [|discriminate]. inversion H; subst. apply Nat.eqb_eq. exact E.
-Qed.
-
-Lemma init_ids_total : forall n parts ids g lm, Forall (part_wf n) parts -> exists r, init_ids parts n g lm ids = Ok r.
-Proof.
-  induction ids as [|id ids IH]; intros g lm Hwf; cbn [init_ids]; [eauto|].
-  destruct (recover_keys n id) as [ks|] eqn:Hr; [|apply IH; exact Hwf].
-  destruct (local_goc_total _ _ g lm ks Hwf (recover_keys_length _ _ _ Hr)) as [[[g1 lm1] i1] H1]. rewrite H1. cbn [obind].
-  apply IH. exact Hwf.
-Qed.
-
-(* no input crashes the orchestrator: any template accepted by NewTagBuilder, any initial ids, any
-   sequence of records of the configured arity *)
-Lemma orchestrator_total_lemma : forall names t parts ids nsinks ops,
-  parse_template names t = Some parts ->
-  Forall (fun o => length (snd o) = length names) ops ->
-  exists g0 g lms is, orch_init parts (length names) ids = Ok g0 /\ run_ops parts g0 (repeat [] nsinks) ops = Ok (g, lms, is).
-Proof.
-  intros names t parts ids nsinks ops Hp Hall. apply parse_template_wf in Hp.
-  unfold orch_init. destruct (init_ids_total _ _ ids g_init [] Hp) as [[g0 lm0] H0]. rewrite H0. cbn [obind].
-  destruct (run_ops_total _ _ ops g0 (repeat [] nsinks) Hp Hall) as [[[g lms] is] H1].
-  exists g0, g, lms, is. auto.
-Qed.
-
-(* ---------- a template naming every key, separated by a byte that no key contains ---------- *)
-
-Fixpoint sep_parts_from (sep : N) (i n : nat) : list tpart :=
-  match n with
-  | O => []
-  | S m => match m with O => [TVar i] | S _ => TVar i :: TLit [sep] :: sep_parts_from sep (S i) m end
+Definition item_value (schema : list bytes) (fields : list bytes) (i : item) : option bytes :=
+  match i with
+  | ILit s => Some s
+  | IVar n => option_map (get_field fields) (find_index schema n)
+  | IBrace n None => option_map (get_field fields) (find_index schema n)
+  | IBrace n (Some (a, b)) =>
+    match find_index schema n, bound_opt a, bound_opt b with
+    | Some loc, Some x, Some y => Some (py_slice (get_field fields loc) x y)
+    | _, _, _ => None
+    end
   end.
 
-Lemma nth_error_skipn_cons : forall (A : Type) (l : list A) i x, nth_error l i = Some x -> skipn i l = x :: skipn (S i) l.
+Definition fields_fit (fields : list bytes) : Prop :=
+  forall loc, Z.of_nat (length (get_field fields loc)) <= max_int32.
+
+Lemma py_slice_full : forall v, py_slice v None None = v.
 Proof.
-  induction l as [|y l IH]; intros [|i] x H; cbn in *; try discriminate.
-  - inversion H. reflexivity.
-  - apply IH. exact H.
+  intros v. unfold py_slice, py_index. cbn [Z.to_nat skipn]. rewrite Z.sub_0_r, Nat2Z.id. apply firstn_all.
 Qed.
 
-Lemma expand_sep_parts : forall sep n i keys buf, (i + n <= length keys)%nat ->
-  expand_parts keys (sep_parts_from sep i n) buf = Ok (buf ++ join sep (firstn n (skipn i keys))).
+Lemma item_part_value : forall schema fields i p v, fields_fit fields ->
+  item_part schema i = Some p -> item_value schema fields i = Some v -> part_value fields p = Ok v.
 Proof.
-  induction n as [|m IH]; intros i keys buf Hl.
-  - cbn. rewrite app_nil_r. reflexivity.
-  - destruct (nth_error keys i) as [k|] eqn:Hk; [|apply nth_error_None in Hk; lia].
-    rewrite (nth_error_skipn_cons _ _ _ _ Hk). destruct m as [|m'].
-    + cbn [sep_parts_from expand_parts expand_part]. unfold key_at. rewrite Hk. cbn. reflexivity.
-    + change (sep_parts_from sep i (S (S m'))) with (TVar i :: TLit [sep] :: sep_parts_from sep (S i) (S m')).
-      cbn [expand_parts expand_part]. unfold key_at. rewrite Hk. cbn [obind].
-      rewrite IH by lia. f_equal.
-      destruct (nth_error keys (S i)) as [k2|] eqn:Hk2; [|apply nth_error_None in Hk2; lia].
-      rewrite (nth_error_skipn_cons _ _ _ _ Hk2).
-      change (firstn (S (S m')) (k :: k2 :: skipn (S (S i)) keys)) with (k :: k2 :: firstn m' (skipn (S (S i)) keys)).
-      change (firstn (S m') (k2 :: skipn (S (S i)) keys)) with (k2 :: firstn m' (skipn (S (S i)) keys)).
-      change (join sep (k :: k2 :: firstn m' (skipn (S (S i)) keys))) with (k ++ sep :: join sep (k2 :: firstn m' (skipn (S (S i)) keys))).
-      rewrite <- !app_assoc. reflexivity.
+  intros schema fields i p v Hfit Hp Hv. destruct i as [s|n|n sl].
+  - inversion Hp; inversion Hv; subst. reflexivity.
+  - cbn in Hp, Hv. destruct (find_index schema n); inversion Hp; inversion Hv; subst. reflexivity.
+  - cbn [item_part] in Hp. destruct (find_index schema n) as [loc|] eqn:En; [|discriminate].
+    destruct sl as [[a b]|].
+    + cbn [item_value] in Hv. rewrite En in Hv. unfold bound_val in Hp. unfold bound_opt in Hv.
+      destruct a as [|a0 a']; destruct b as [|b0 b'];
+        repeat match type of Hp with context [atoi ?t] => destruct (atoi t) eqn:?; [|discriminate] end;
+        cbn [option_map] in Hv; inversion Hp; inversion Hv; subst; cbn [part_value].
+      * apply (slice_python_lemma _ None None). apply Hfit.
+      * apply (slice_python_lemma _ None (Some _)). apply Hfit.
+      * apply (slice_python_lemma _ (Some _) None). apply Hfit.
+      * apply (slice_python_lemma _ (Some _) (Some _)). apply Hfit.
+    + cbn [item_value] in Hv. rewrite En in Hv. cbn in Hp, Hv. inversion Hp; inversion Hv; subst.
+      cbn [part_value]. rewrite (slice_python_lemma _ None None) by apply Hfit. rewrite py_slice_full. reflexivity.
 Qed.
 
-Lemma build_tag_sep_template : forall sep keys, keys <> [] ->
-  build_tag (sep_parts_from sep 0 (length keys)) keys = Ok (join sep keys).
+(* expansion of a compiled template = concatenation of the documented item values *)
+Lemma expand_items : forall schema fields l ps vs, fields_fit fields ->
+  all_some (map (item_part schema) l) = Some ps ->
+  all_some (map (item_value schema fields) l) = Some vs ->
+  expand fields ps = Ok (concat vs).
 Proof.
-  intros sep keys Hne. destruct keys as [|k [|k2 ks]]; [contradiction| |].
-  - reflexivity.
-  - change (length (k :: k2 :: ks)) with (S (S (length ks))).
-    change (sep_parts_from sep 0 (S (S (length ks)))) with (TVar 0 :: TLit [sep] :: sep_parts_from sep 1 (S (length ks))).
-    unfold build_tag.
-    change (TVar 0 :: TLit [sep] :: sep_parts_from sep 1 (S (length ks))) with (sep_parts_from sep 0 (length (k :: k2 :: ks))).
-    rewrite expand_sep_parts by (cbn; lia). cbn [skipn app]. rewrite firstn_all. reflexivity.
-Qed.
-
-(* such a template gives different tags to different key tuples *)
-Lemma tag_injective_sep_template : forall sep ks ks' tag,
-  ks <> [] -> length ks = length ks' ->
-  Forall (no_sep sep) ks -> Forall (no_sep sep) ks' ->
-  build_tag (sep_parts_from sep 0 (length ks)) ks = Ok tag ->
-  build_tag (sep_parts_from sep 0 (length ks)) ks' = Ok tag -> ks = ks'.
-Proof.
-  intros sep ks ks' tag Hne Hlen H1 H2 T1 T2.
-  assert (Hne' : ks' <> []) by (intros ->; destruct ks; [contradiction|discriminate]).
-  rewrite build_tag_sep_template in T1 by exact Hne.
-  rewrite Hlen, build_tag_sep_template in T2 by exact Hne'.
-  inversion T1 as [E1]. inversion T2 as [E2].
-  rewrite <- (split_on_join sep ks Hne H1), <- (split_on_join sep ks' Hne' H2), E1, E2. reflexivity.
+  intros schema fields l ps vs Hfit. rewrite expand_eq_all. revert ps vs.
+  induction l as [|i l IH]; intros ps vs Hp Hv.
+  - inversion Hp; inversion Hv; reflexivity.
+  - cbn [map all_some] in Hp, Hv.
+    destruct (item_part schema i) as [p|] eqn:Ep; [|discriminate].
+    destruct (all_some (map (item_part schema) l)) as [ps'|]; [|discriminate].
+    destruct (item_value schema fields i) as [v|] eqn:Ev; [|discriminate].
+    destruct (all_some (map (item_value schema fields) l)) as [vs'|]; [|discriminate].
+    inversion Hp; inversion Hv; subst. cbn [expand_all concat].
+    rewrite (item_part_value schema fields i p v Hfit Ep Ev). rewrite (IH ps' vs' eq_refl eq_refl). reflexivity.
 Qed.
